@@ -287,12 +287,17 @@ def handle2 (op : String) (a obs : List String) : Option Verdict :=
     let (o2, _) := tsLoopSync role (w.length + 2) false w []
     let sc := List.replicate (w.length + 8) (Poll.give 1048576)
     let (o3, _) := tsLoopAsync role (w.length + 10) false ⟨w, .fin⟩ sc []
-    let model := [";".intercalate o1, ";".intercalate o2, ";".intercalate o3]
+    -- the same in pieces (the harness uses the same pattern)
+    let pat : List Poll := [.give 3, .give 1, .give 250, .give 7, .give 1200, .give 100]
+    let sc4 := (List.range (w.length + 8)).map fun i => pat.getD (i % 6) (Poll.give 1)
+    let (o4, _) := tsLoopAsync role (w.length + sc4.length + 10) false ⟨w, .fin⟩ sc4 []
+    let model := [";".intercalate o1, ";".intercalate o2, ";".intercalate o3, ";".intercalate o4]
     let asyncKnown := knownSeq (get obs 2)
     let syncKnown := knownSeq (get obs 0)
     let prop := check [("no_trap", !isTrap obs),
       ("insertions_change_nothing", knownSeq (get obs 1) == syncKnown),
-      ("insertions_change_nothing_async", asyncKnown.dropLast == syncKnown.dropLast)]
+      ("insertions_change_nothing_async", asyncKnown.dropLast == syncKnown.dropLast),
+      ("insertions_change_nothing_async_in_pieces", (knownSeq (get obs 3)).dropLast == syncKnown.dropLast)]
     pure (model, prop)
   | "ts.hist" => do
     let role ← parseRole (get a 0)
